@@ -1,8 +1,689 @@
-//! placeholder: this component is not built yet
+//! C04 / C19 — the instruction front end (`src/arm6m/mod.rs`) and the disassembly text
+//! (`impl Display for InstrAt`) against the Lean models `Trion.Front` / `Trion.Show`.
+//!
+//! Shared machinery: serialisation of argument trees and instructions for the line protocol, the real
+//! `evaluate` run in an emulated constant environment (so that the model's `eval` parameter is the REAL
+//! evaluator), the staged prediction "model `assemble` + real `encode`" of what the whole pipeline does
+//! with one instruction statement, and the real pipeline itself (`Context` exactly as `bin/assembler.rs`).
+use std::error::Error;
+use std::fmt::Write as _;
+use std::path::PathBuf;
+
+use trion::arm6m::Arm6M;
+use trion::arm6m::asm::{ImmReg, Instruction};
+use trion::arm6m::cond::Condition;
+use trion::arm6m::reg::Register;
+use trion::arm6m::regset::RegisterSet;
+use trion::arm6m::sysreg::SystemReg;
+use trion::asm::Context;
+use trion::asm::arcob::Arcob;
+use trion::asm::constant::Realm;
+use trion::asm::directive::DirectiveList;
+use trion::asm::simplify::{evaluate, EvalError, Evaluation};
+use trion::text::parse::{Argument, ElementValue, Parser};
+use trion::text::token::Number;
+
 use crate::common::*;
+
+#[path = "front_c04.rs"]
+mod c04;
+#[path = "front_c19.rs"]
+mod c19;
 
 pub fn run(id: &str, cx: &mut Cx)
 {
-	cx.report.notes.push(format!("component for {id} not implemented"));
-	cx.report.oracle_fail("-", "harness component not implemented");
+	match id
+	{
+		"C04" => c04::run(cx),
+		"C19" => c19::run(cx),
+		_ => unreachable!(),
+	}
+}
+
+pub fn dirs() -> &'static DirectiveList
+{
+	Box::leak(Box::new(DirectiveList::generate()))
+}
+
+// ---------------------------------------------------------------------------------------------------
+// argument trees
+
+pub fn ser_arg(a: &Argument, o: &mut String)
+{
+	fn bin(op: &str, l: &Argument, r: &Argument, o: &mut String)
+	{
+		o.push_str("b ");
+		o.push_str(op);
+		o.push(' ');
+		ser_arg(l, o);
+		o.push(' ');
+		ser_arg(r, o);
+	}
+	match a
+	{
+		Argument::Constant(Number::Integer(v)) => {let _ = write!(o, "c {v}");},
+		Argument::Identifier(s) => {let _ = write!(o, "i {}", hex(s.as_bytes()));},
+		Argument::String(s) => {let _ = write!(o, "s {}", hex(s.as_bytes()));},
+		Argument::Add{lhs, rhs} => bin("add", lhs, rhs, o),
+		Argument::Subtract{lhs, rhs} => bin("sub", lhs, rhs, o),
+		Argument::Multiply{lhs, rhs} => bin("mul", lhs, rhs, o),
+		Argument::Divide{lhs, rhs} => bin("div", lhs, rhs, o),
+		Argument::Modulo{lhs, rhs} => bin("mod", lhs, rhs, o),
+		Argument::BitAnd{lhs, rhs} => bin("and", lhs, rhs, o),
+		Argument::BitOr{lhs, rhs} => bin("or", lhs, rhs, o),
+		Argument::BitXor{lhs, rhs} => bin("xor", lhs, rhs, o),
+		Argument::LeftShift{lhs, rhs} => bin("shl", lhs, rhs, o),
+		Argument::RightShift{lhs, rhs} => bin("shr", lhs, rhs, o),
+		Argument::Negate(x) => {o.push_str("n "); ser_arg(x, o);},
+		Argument::Not(x) => {o.push_str("t "); ser_arg(x, o);},
+		Argument::Address(x) => {o.push_str("a "); ser_arg(x, o);},
+		Argument::Sequence(xs) =>
+		{
+			let _ = write!(o, "q {}", xs.len());
+			for x in xs {o.push(' '); ser_arg(x, o);}
+		},
+		Argument::Function{name, args} =>
+		{
+			let _ = write!(o, "f {} {}", hex(name.as_bytes()), args.len());
+			for x in args {o.push(' '); ser_arg(x, o);}
+		},
+	}
+}
+
+pub fn arg_str(a: &Argument) -> String
+{
+	let mut s = String::new();
+	ser_arg(a, &mut s);
+	s
+}
+
+fn arc(s: &str) -> Arcob<'static, str>
+{
+	Arcob::Arced(std::sync::Arc::from(s))
+}
+
+pub fn de_arg<'a>(t: &mut impl Iterator<Item = &'a str>) -> Option<Argument<'static>>
+{
+	fn list<'a>(n: usize, t: &mut impl Iterator<Item = &'a str>) -> Option<Vec<Argument<'static>>>
+	{
+		(0..n).map(|_| de_arg(t)).collect()
+	}
+	let k = t.next()?;
+	Some(match k
+	{
+		"c" => Argument::Constant(Number::Integer(t.next()?.parse().ok()?)),
+		"i" => Argument::Identifier(arc(std::str::from_utf8(&unhex(t.next()?)?).ok()?)),
+		"s" => Argument::String(arc(std::str::from_utf8(&unhex(t.next()?)?).ok()?)),
+		"b" =>
+		{
+			let op = t.next()?;
+			let lhs = Box::new(de_arg(t)?);
+			let rhs = Box::new(de_arg(t)?);
+			match op
+			{
+				"add" => Argument::Add{lhs, rhs},
+				"sub" => Argument::Subtract{lhs, rhs},
+				"mul" => Argument::Multiply{lhs, rhs},
+				"div" => Argument::Divide{lhs, rhs},
+				"mod" => Argument::Modulo{lhs, rhs},
+				"and" => Argument::BitAnd{lhs, rhs},
+				"or" => Argument::BitOr{lhs, rhs},
+				"xor" => Argument::BitXor{lhs, rhs},
+				"shl" => Argument::LeftShift{lhs, rhs},
+				"shr" => Argument::RightShift{lhs, rhs},
+				_ => return None,
+			}
+		},
+		"n" => Argument::Negate(Box::new(de_arg(t)?)),
+		"t" => Argument::Not(Box::new(de_arg(t)?)),
+		"a" => Argument::Address(Box::new(de_arg(t)?)),
+		"q" =>
+		{
+			let n = t.next()?.parse().ok()?;
+			Argument::Sequence(list(n, t)?)
+		},
+		"f" =>
+		{
+			let name = arc(std::str::from_utf8(&unhex(t.next()?)?).ok()?);
+			let n = t.next()?.parse().ok()?;
+			Argument::Function{name, args: list(n, t)?}
+		},
+		_ => return None,
+	})
+}
+
+// ---------------------------------------------------------------------------------------------------
+// instructions
+
+fn ir(x: &ImmReg) -> String
+{
+	match x
+	{
+		ImmReg::Immediate(v) => format!("i {v}"),
+		ImmReg::Register(r) => format!("r {}", u8::from(*r)),
+	}
+}
+
+pub fn ser_instr(i: &Instruction) -> String
+{
+	let r = |r: &Register| u8::from(*r);
+	let b = |b: &bool| if *b {1} else {0};
+	match i
+	{
+		Instruction::Adc{dst, rhs} => format!("adc {} {}", r(dst), r(rhs)),
+		Instruction::Add{flags, dst, lhs, rhs} => format!("add {} {} {} {}", b(flags), r(dst), r(lhs), ir(rhs)),
+		Instruction::Adr{dst, off} => format!("adr {} {off}", r(dst)),
+		Instruction::And{dst, rhs} => format!("and {} {}", r(dst), r(rhs)),
+		Instruction::Asr{dst, value, shift} => format!("asr {} {} {}", r(dst), r(value), ir(shift)),
+		Instruction::B{cond, off} => format!("b {} {off}", u8::from(*cond)),
+		Instruction::Bic{dst, rhs} => format!("bic {} {}", r(dst), r(rhs)),
+		Instruction::Bkpt{info} => format!("bkpt {info}"),
+		Instruction::Bl{off} => format!("bl {off}"),
+		Instruction::Blx{off} => format!("blx {}", r(off)),
+		Instruction::Bx{off} => format!("bx {}", r(off)),
+		Instruction::Cmn{lhs, rhs} => format!("cmn {} {}", r(lhs), r(rhs)),
+		Instruction::Cmp{lhs, rhs} => format!("cmp {} {}", r(lhs), ir(rhs)),
+		Instruction::Cps{enable} => format!("cps {}", b(enable)),
+		Instruction::Dmb => "dmb".to_owned(),
+		Instruction::Dsb => "dsb".to_owned(),
+		Instruction::Eor{dst, rhs} => format!("eor {} {}", r(dst), r(rhs)),
+		Instruction::Isb => "isb".to_owned(),
+		Instruction::Ldm{addr, registers} => format!("ldm {} {}", r(addr), registers.get_bits()),
+		Instruction::Ldr{dst, addr, off} => format!("ldr {} {} {}", r(dst), r(addr), ir(off)),
+		Instruction::Ldrb{dst, addr, off} => format!("ldrb {} {} {}", r(dst), r(addr), ir(off)),
+		Instruction::Ldrh{dst, addr, off} => format!("ldrh {} {} {}", r(dst), r(addr), ir(off)),
+		Instruction::Ldrsb{dst, addr, off} => format!("ldrsb {} {} {}", r(dst), r(addr), r(off)),
+		Instruction::Ldrsh{dst, addr, off} => format!("ldrsh {} {} {}", r(dst), r(addr), r(off)),
+		Instruction::Lsl{dst, value, shift} => format!("lsl {} {} {}", r(dst), r(value), ir(shift)),
+		Instruction::Lsr{dst, value, shift} => format!("lsr {} {} {}", r(dst), r(value), ir(shift)),
+		Instruction::Mov{flags, dst, src} => format!("mov {} {} {}", b(flags), r(dst), ir(src)),
+		Instruction::Mrs{dst, src} => format!("mrs {} {}", r(dst), u8::from(*src)),
+		Instruction::Msr{dst, src} => format!("msr {} {}", u8::from(*dst), r(src)),
+		Instruction::Mul{dst, rhs} => format!("mul {} {}", r(dst), r(rhs)),
+		Instruction::Mvn{dst, value} => format!("mvn {} {}", r(dst), r(value)),
+		Instruction::Nop => "nop".to_owned(),
+		Instruction::Orr{dst, rhs} => format!("orr {} {}", r(dst), r(rhs)),
+		Instruction::Pop{registers} => format!("pop {}", registers.get_bits()),
+		Instruction::Push{registers} => format!("push {}", registers.get_bits()),
+		Instruction::Rev{dst, value} => format!("rev {} {}", r(dst), r(value)),
+		Instruction::Rev16{dst, value} => format!("rev16 {} {}", r(dst), r(value)),
+		Instruction::Revsh{dst, value} => format!("revsh {} {}", r(dst), r(value)),
+		Instruction::Ror{dst, rhs} => format!("ror {} {}", r(dst), r(rhs)),
+		Instruction::Rsb{dst, lhs} => format!("rsb {} {}", r(dst), r(lhs)),
+		Instruction::Sbc{dst, rhs} => format!("sbc {} {}", r(dst), r(rhs)),
+		Instruction::Sev => "sev".to_owned(),
+		Instruction::Stm{addr, registers} => format!("stm {} {}", r(addr), registers.get_bits()),
+		Instruction::Str{src, addr, off} => format!("str {} {} {}", r(src), r(addr), ir(off)),
+		Instruction::Strb{src, addr, off} => format!("strb {} {} {}", r(src), r(addr), ir(off)),
+		Instruction::Strh{src, addr, off} => format!("strh {} {} {}", r(src), r(addr), ir(off)),
+		Instruction::Sub{flags, dst, lhs, rhs} => format!("sub {} {} {} {}", b(flags), r(dst), r(lhs), ir(rhs)),
+		Instruction::Svc{info} => format!("svc {info}"),
+		Instruction::Sxtb{dst, value} => format!("sxtb {} {}", r(dst), r(value)),
+		Instruction::Sxth{dst, value} => format!("sxth {} {}", r(dst), r(value)),
+		Instruction::Tst{lhs, rhs} => format!("tst {} {}", r(lhs), r(rhs)),
+		Instruction::Udf{info} => format!("udf {info}"),
+		Instruction::Udfw{info} => format!("udfw {info}"),
+		Instruction::Uxtb{dst, value} => format!("uxtb {} {}", r(dst), r(value)),
+		Instruction::Uxth{dst, value} => format!("uxth {} {}", r(dst), r(value)),
+		Instruction::Wfe => "wfe".to_owned(),
+		Instruction::Wfi => "wfi".to_owned(),
+		Instruction::Yield => "yield".to_owned(),
+	}
+}
+
+pub fn reg(n: u8) -> Register {Register::try_from(n).unwrap()}
+
+/// parse the model's instruction text back into the real type (`None` if a field does not fit the Rust type)
+pub fn de_instr(s: &str) -> Option<Instruction>
+{
+	let w: Vec<&str> = s.split(' ').collect();
+	let r = |i: usize| -> Option<Register> {Register::try_from(w.get(i)?.parse::<u8>().ok()?).ok()};
+	let b = |i: usize| -> Option<bool> {Some(*w.get(i)? == "1")};
+	let n = |i: usize| -> Option<i64> {w.get(i)?.parse::<i64>().ok()};
+	let irp = |i: usize| -> Option<ImmReg>
+	{
+		match *w.get(i)?
+		{
+			"i" => Some(ImmReg::Immediate(i32::try_from(n(i + 1)?).ok()?)),
+			"r" => Some(ImmReg::Register(r(i + 1)?)),
+			_ => None,
+		}
+	};
+	let set = |i: usize| -> Option<RegisterSet> {Some(RegisterSet::of(u16::try_from(n(i)?).ok()?))};
+	let sys = |i: usize| -> Option<SystemReg> {SystemReg::try_from(u8::try_from(n(i)?).ok()?).ok()};
+	Some(match w[0]
+	{
+		"adc" => Instruction::Adc{dst: r(1)?, rhs: r(2)?},
+		"add" => Instruction::Add{flags: b(1)?, dst: r(2)?, lhs: r(3)?, rhs: irp(4)?},
+		"adr" => Instruction::Adr{dst: r(1)?, off: u16::try_from(n(2)?).ok()?},
+		"and" => Instruction::And{dst: r(1)?, rhs: r(2)?},
+		"asr" => Instruction::Asr{dst: r(1)?, value: r(2)?, shift: irp(3)?},
+		"b" => Instruction::B{cond: Condition::try_from(u8::try_from(n(1)?).ok()?).ok()?, off: i32::try_from(n(2)?).ok()?},
+		"bic" => Instruction::Bic{dst: r(1)?, rhs: r(2)?},
+		"bkpt" => Instruction::Bkpt{info: u8::try_from(n(1)?).ok()?},
+		"bl" => Instruction::Bl{off: i32::try_from(n(1)?).ok()?},
+		"blx" => Instruction::Blx{off: r(1)?},
+		"bx" => Instruction::Bx{off: r(1)?},
+		"cmn" => Instruction::Cmn{lhs: r(1)?, rhs: r(2)?},
+		"cmp" => Instruction::Cmp{lhs: r(1)?, rhs: irp(2)?},
+		"cps" => Instruction::Cps{enable: b(1)?},
+		"dmb" => Instruction::Dmb,
+		"dsb" => Instruction::Dsb,
+		"eor" => Instruction::Eor{dst: r(1)?, rhs: r(2)?},
+		"isb" => Instruction::Isb,
+		"ldm" => Instruction::Ldm{addr: r(1)?, registers: set(2)?},
+		"ldr" => Instruction::Ldr{dst: r(1)?, addr: r(2)?, off: irp(3)?},
+		"ldrb" => Instruction::Ldrb{dst: r(1)?, addr: r(2)?, off: irp(3)?},
+		"ldrh" => Instruction::Ldrh{dst: r(1)?, addr: r(2)?, off: irp(3)?},
+		"ldrsb" => Instruction::Ldrsb{dst: r(1)?, addr: r(2)?, off: r(3)?},
+		"ldrsh" => Instruction::Ldrsh{dst: r(1)?, addr: r(2)?, off: r(3)?},
+		"lsl" => Instruction::Lsl{dst: r(1)?, value: r(2)?, shift: irp(3)?},
+		"lsr" => Instruction::Lsr{dst: r(1)?, value: r(2)?, shift: irp(3)?},
+		"mov" => Instruction::Mov{flags: b(1)?, dst: r(2)?, src: irp(3)?},
+		"mrs" => Instruction::Mrs{dst: r(1)?, src: sys(2)?},
+		"msr" => Instruction::Msr{dst: sys(1)?, src: r(2)?},
+		"mul" => Instruction::Mul{dst: r(1)?, rhs: r(2)?},
+		"mvn" => Instruction::Mvn{dst: r(1)?, value: r(2)?},
+		"nop" => Instruction::Nop,
+		"orr" => Instruction::Orr{dst: r(1)?, rhs: r(2)?},
+		"pop" => Instruction::Pop{registers: set(1)?},
+		"push" => Instruction::Push{registers: set(1)?},
+		"rev" => Instruction::Rev{dst: r(1)?, value: r(2)?},
+		"rev16" => Instruction::Rev16{dst: r(1)?, value: r(2)?},
+		"revsh" => Instruction::Revsh{dst: r(1)?, value: r(2)?},
+		"ror" => Instruction::Ror{dst: r(1)?, rhs: r(2)?},
+		"rsb" => Instruction::Rsb{dst: r(1)?, lhs: r(2)?},
+		"sbc" => Instruction::Sbc{dst: r(1)?, rhs: r(2)?},
+		"sev" => Instruction::Sev,
+		"stm" => Instruction::Stm{addr: r(1)?, registers: set(2)?},
+		"str" => Instruction::Str{src: r(1)?, addr: r(2)?, off: irp(3)?},
+		"strb" => Instruction::Strb{src: r(1)?, addr: r(2)?, off: irp(3)?},
+		"strh" => Instruction::Strh{src: r(1)?, addr: r(2)?, off: irp(3)?},
+		"sub" => Instruction::Sub{flags: b(1)?, dst: r(2)?, lhs: r(3)?, rhs: irp(4)?},
+		"svc" => Instruction::Svc{info: u8::try_from(n(1)?).ok()?},
+		"sxtb" => Instruction::Sxtb{dst: r(1)?, value: r(2)?},
+		"sxth" => Instruction::Sxth{dst: r(1)?, value: r(2)?},
+		"tst" => Instruction::Tst{lhs: r(1)?, rhs: r(2)?},
+		"udf" => Instruction::Udf{info: u8::try_from(n(1)?).ok()?},
+		"udfw" => Instruction::Udfw{info: u16::try_from(n(1)?).ok()?},
+		"uxtb" => Instruction::Uxtb{dst: r(1)?, value: r(2)?},
+		"uxth" => Instruction::Uxth{dst: r(1)?, value: r(2)?},
+		"wfe" => Instruction::Wfe,
+		"wfi" => Instruction::Wfi,
+		"yield" => Instruction::Yield,
+		_ => return None,
+	})
+}
+
+pub fn encode(i: &Instruction) -> Result<Vec<u8>, String>
+{
+	let mut tmp = [0u8; 4];
+	match i.encode(&mut tmp)
+	{
+		Ok(len) => Ok(tmp[..len].to_vec()),
+		Err(e) => Err(e.to_string()),
+	}
+}
+
+// ---------------------------------------------------------------------------------------------------
+// the real `evaluate` in an emulated constant environment
+
+/// constants visible to `evaluate`: `Some(v)` defined, `None` declared but not defined (`Lookup::Deferred`)
+pub type Env = Vec<(String, Option<i64>)>;
+
+pub fn env_ctx<'l>(env: &Env, dirs: &'l DirectiveList) -> Context<'l>
+{
+	// no current file: `evaluate` looks constants up in the global realm, which we fill through the public API
+	let mut ctx = Context::new(&Arm6M, dirs);
+	for (name, v) in env
+	{
+		match v
+		{
+			Some(v) => {let _ = ctx.replace_constant(name, *v, Realm::Global);},
+			None => {let _ = ctx.defer_constant(name, Realm::Global);},
+		}
+	}
+	ctx
+}
+
+/// `<evalout>` of the line protocol: what the real `evaluate` does to (a copy of) `arg` under `ctx`
+pub fn eval_out(arg: &Argument<'static>, ctx: &Context) -> String
+{
+	let mut a = arg.clone();
+	let r = guarded(|| evaluate(&mut a, ctx));
+	let mut o = String::new();
+	match r
+	{
+		Err(p) => {let _ = write!(o, "EO {} ", hex(format!("PANIC: {p}").as_bytes()));},
+		Ok(Ok(Evaluation::Complete{..})) => o.push_str("C "),
+		Ok(Ok(Evaluation::Deferred{cause, ..})) => {let _ = write!(o, "D {} ", hex(cause.as_bytes()));},
+		Ok(Err(EvalError::NoSuchVariable{name, ..})) => {let _ = write!(o, "N {} ", hex(name.as_bytes()));},
+		Ok(Err(EvalError::BadType{kind, op})) => {let _ = write!(o, "EB {} {} ", u8::from(kind), u8::from(op));},
+		Ok(Err(EvalError::Overflow(e))) => {let _ = write!(o, "EO {} ", hex(e.to_string().as_bytes()));},
+	}
+	ser_arg(&a, &mut o);
+	o
+}
+
+// ---------------------------------------------------------------------------------------------------
+// a one-instruction program and the real pipeline
+
+#[derive(Clone, Debug)]
+pub struct Program
+{
+	pub addr: u32,
+	pub name: String,
+	pub args: Vec<Argument<'static>>,
+	pub line: u32,
+	pub col: u32,
+	/// constants as `evaluate` sees them at the statement, by the local tasks at the end of the file, at `finalize`
+	pub env1: Env,
+	pub env2: Env,
+	pub env3: Env,
+}
+
+/// Reads the shape `.addr A; {.const n, v; | .global g;}* INSTR …; {.const n, v;}*` back from the text with
+/// the real parser. `None` if the text is not of that shape (the generators only produce that shape).
+pub fn analyse(text: &str) -> Option<Program>
+{
+	let mut addr = None;
+	let mut instr: Option<(String, Vec<Argument<'static>>, u32, u32)> = None;
+	let mut before: Vec<(String, Option<i64>)> = Vec::new();
+	let mut after: Vec<(String, i64)> = Vec::new();
+	let mut globals: Vec<String> = Vec::new();
+	for el in Parser::new(text.as_bytes())
+	{
+		let el = el.ok()?;
+		match el.value
+		{
+			ElementValue::Directive{name, args} =>
+			{
+				match (name.as_ref(), args.as_slice())
+				{
+					("addr", [Argument::Constant(Number::Integer(v))]) => addr = Some(u32::try_from(*v).ok()?),
+					("const", [Argument::Identifier(n), v]) =>
+					{
+						let v = match v
+						{
+							Argument::Constant(Number::Integer(v)) => *v,
+							Argument::Negate(x) => match x.as_ref() {Argument::Constant(Number::Integer(v)) => v.checked_neg()?, _ => return None},
+							_ => return None,
+						};
+						if instr.is_none() {before.push((n.as_ref().to_owned(), Some(v)));}
+						else {after.push((n.as_ref().to_owned(), v));}
+					},
+					("global", [Argument::Identifier(n)]) =>
+					{
+						if instr.is_some() {return None;}
+						globals.push(n.as_ref().to_owned());
+						before.push((n.as_ref().to_owned(), None));
+					},
+					_ => return None,
+				}
+			},
+			ElementValue::Instruction{name, args} =>
+			{
+				if instr.is_some() {return None;}
+				instr = Some((name.as_ref().to_owned(), Argument::vec_into_owned(args), el.line, el.col));
+			},
+			ElementValue::Label(..) => return None,
+		}
+	}
+	let (name, args, line, col) = instr?;
+	let mut env2: Env = Vec::new();
+	for (n, v) in &before {if v.is_some() {env2.push((n.clone(), *v));}}
+	for (n, v) in &after {env2.push((n.clone(), Some(*v)));}
+	for g in &globals {if !env2.iter().any(|(n, _)| n == g) {env2.push((g.clone(), None));}}
+	let env3: Env = globals.iter().map(|g| (g.clone(), env2.iter().find(|(n, _)| n == g).and_then(|(_, v)| *v))).collect();
+	Some(Program{addr: addr?, name, args, line, col, env1: before, env2, env3})
+}
+
+#[derive(Clone, Debug, PartialEq, Eq)]
+pub struct Outcome
+{
+	/// diagnostics at the instruction's position, rendered as `Display` of the error and of each `source()`
+	pub errs: Vec<String>,
+	/// diagnostics elsewhere (directives)
+	pub other: Vec<String>,
+	/// the output map
+	pub out: Vec<(u32, Vec<u8>)>,
+	pub panic: Option<String>,
+}
+
+impl Outcome
+{
+	pub fn canon(&self) -> String
+	{
+		if let Some(p) = &self.panic {return format!("PANIC: {p}");}
+		let mut s = String::new();
+		for e in &self.errs {let _ = write!(s, "E[{e}] ");}
+		for (a, b) in &self.out {let _ = write!(s, "@{a:08x}:{} ", hex(b));}
+		if s.is_empty() {s.push_str("nothing");}
+		s.trim_end().to_owned()
+	}
+}
+
+fn err_text(e: &(dyn Error + 'static)) -> String
+{
+	let mut s = e.to_string();
+	let mut src = e.source();
+	while let Some(x) = src
+	{
+		s.push_str(" <- ");
+		s.push_str(&x.to_string());
+		src = x.source();
+	}
+	s
+}
+
+/// exactly the sequence of `bin/assembler.rs`: assemble, close_segment, finalize, then read output and errors
+pub fn real_run(text: &str, line: u32, col: u32, dirs: &DirectiveList) -> Outcome
+{
+	let r = guarded(||
+	{
+		let mut ctx = Context::new(&Arm6M, dirs);
+		drop(ctx.assemble(text.as_bytes(), PathBuf::from("t.asm")));
+		let mut extra = Vec::new();
+		if let Err(e) = ctx.close_segment() {extra.push(format!("close_segment: {}", err_text(&e)));}
+		let _ = ctx.finalize();
+		let mut errs = Vec::new();
+		let mut other = extra;
+		for e in ctx.get_errors()
+		{
+			let mut t = e.value.to_string();
+			let mut src = e.source();
+			while let Some(x) = src
+			{
+				t.push_str(" <- ");
+				t.push_str(&x.to_string());
+				src = x.source();
+			}
+			if e.line == line && e.col == col {errs.push(t);} else {other.push(format!("{t} ({}:{})", e.line, e.col));}
+		}
+		let out: Vec<(u32, Vec<u8>)> = ctx.output().iter().map(|(r, d)| (r.get_first(), d.to_vec())).collect();
+		(errs, other, out)
+	});
+	match r
+	{
+		Ok((errs, other, out)) => Outcome{errs, other, out, panic: None},
+		Err(p) => Outcome{errs: Vec::new(), other: Vec::new(), out: Vec::new(), panic: Some(p)},
+	}
+}
+
+// ---------------------------------------------------------------------------------------------------
+// prediction: model `assemble` (with the real `evaluate` as its `eval`) + real `encode` + the caller's protocol
+
+pub const ENC_FAIL: &str = "instruction assembly failed <- could not encode instruction <- ";
+
+fn write_fail(need: usize, cap: u64) -> String
+{
+	format!("instruction assembly failed <- could not write instruction to segment <- segment overflow (need {need}, capacity {cap})")
+}
+
+/// the parsed reply of `front build` / `front asm`
+pub struct AsmReply
+{
+	pub res: String,
+	pub instr: String,
+	pub done: String,
+	pub args: Vec<Argument<'static>>,
+}
+
+pub fn parse_reply(r: &str) -> Option<AsmReply>
+{
+	let parts: Vec<&str> = r.split(" | ").collect();
+	if parts.len() != 4 {return None;}
+	let mut t = parts[3].split(' ');
+	let n: usize = t.next()?.parse().ok()?;
+	let args = (0..n).map(|_| de_arg(&mut t)).collect::<Option<Vec<_>>>()?;
+	Some(AsmReply{res: parts[0].to_owned(), instr: parts[1].to_owned(), done: parts[2].to_owned(), args})
+}
+
+pub fn pairs(args: &[Argument<'static>], env: &Env, dirs: &DirectiveList) -> String
+{
+	let ctx = env_ctx(env, dirs);
+	let mut s = format!("{}", args.len());
+	for a in args
+	{
+		s.push(' ');
+		ser_arg(a, &mut s);
+		s.push(' ');
+		s.push_str(&eval_out(a, &ctx));
+	}
+	s
+}
+
+pub fn stage1_request(p: &Program, dirs: &DirectiveList) -> String
+{
+	format!("front build {} 1 {} {}", p.addr, hex(p.name.as_bytes()), pairs(&p.args, &p.env1, dirs))
+}
+
+pub fn later_request(p: &Program, prev: &AsmReply, env: &Env, dirs: &DirectiveList) -> String
+{
+	format!("front asm {} 0 {} {} {}", p.addr, prev.done, prev.instr, pairs(&prev.args, env, dirs))
+}
+
+/// State of the prediction of one program while the staged model requests are made.
+pub struct Predict
+{
+	pub errs: Vec<String>,
+	pub bytes: Option<Vec<u8>>,
+	/// `Some(reply)` = a further `assemble` is due (stage 2: local tasks, stage 3: finalize)
+	pub pending: Option<AsmReply>,
+	pub stage: u8,
+	pub bad: Option<String>,
+}
+
+impl Predict
+{
+	pub fn outcome(&self, addr: u32) -> Outcome
+	{
+		let out = match &self.bytes {Some(b) if !b.is_empty() => vec![(addr, b.clone())], _ => Vec::new()};
+		Outcome{errs: self.errs.clone(), other: Vec::new(), out, panic: self.bad.as_ref().map(|b| format!("model: {b}"))}
+	}
+
+	fn finish_with(&mut self, instr: &str, addr: u32, first: bool)
+	{
+		match de_instr(instr)
+		{
+			None => self.bad = Some(format!("instruction {instr} does not fit the Rust types")),
+			Some(i) => match encode(&i)
+			{
+				Ok(b) =>
+				{
+					let cap = (1u64 << 32) - addr as u64;
+					if first && (b.len() as u64) > cap {self.errs.push(write_fail(b.len(), cap));}
+					else {self.bytes = Some(b);}
+				},
+				Err(e) => self.errs.push(format!("{ENC_FAIL}{e}")),
+			},
+		}
+	}
+
+	/// after `front build`
+	pub fn stage1(reply: &str, addr: u32) -> Predict
+	{
+		let mut p = Predict{errs: Vec::new(), bytes: None, pending: None, stage: 1, bad: None};
+		if let Some(t) = reply.strip_prefix("notfound ")
+		{
+			p.errs.push(t.to_owned());
+			return p;
+		}
+		let Some(r) = parse_reply(reply) else {p.bad = Some(format!("unparsable reply {reply}")); return p;};
+		if r.res == "completed" {p.finish_with(&r.instr, addr, true); return p;}
+		if r.res == "panic" {p.bad = Some("panic".to_owned()); return p;}
+		if let Some(t) = r.res.strip_prefix("error ") {p.errs.push(t.to_owned());}
+		// `_ => {instr.write_instr(ctx, true)?; instr.into_owned().schedule(ctx, false)}`: placeholder sized by the partial instruction
+		match de_instr(&r.instr).map(|i| encode(&i))
+		{
+			None => p.bad = Some(format!("instruction {} does not fit the Rust types", r.instr)),
+			Some(Err(e)) => p.errs.push(format!("{ENC_FAIL}{e}")),
+			Some(Ok(b)) =>
+			{
+				let cap = (1u64 << 32) - addr as u64;
+				if (b.len() as u64) > cap {p.errs.push(write_fail(b.len(), cap));}
+				else
+				{
+					p.bytes = Some(vec![0xBE; b.len()]);
+					p.pending = Some(r);
+					p.stage = 2;
+				}
+			},
+		}
+		p
+	}
+
+	/// after a `front asm` of stage 2 or 3
+	pub fn later(&mut self, reply: &str, addr: u32)
+	{
+		self.pending = None;
+		let Some(r) = parse_reply(reply) else {self.bad = Some(format!("unparsable reply {reply}")); return;};
+		if r.res == "completed"
+		{
+			let len = self.bytes.as_ref().map(|b| b.len());
+			let before = self.errs.len();
+			self.finish_with(&r.instr, addr, false);
+			if self.errs.len() == before && self.bytes.as_ref().map(|b| b.len()) != len
+			{
+				self.bad = Some("final encoding and placeholder differ in length".to_owned());
+			}
+		}
+		else if r.res == "panic" {self.bad = Some("panic".to_owned());}
+		else if let Some(t) = r.res.strip_prefix("error ") {self.errs.push(t.to_owned());}
+		else if let Some(c) = r.res.strip_prefix("deferred ")
+		{
+			if self.stage == 2
+			{
+				self.pending = Some(r);
+				self.stage = 3;
+			}
+			else
+			{
+				let name = String::from_utf8_lossy(&unhex(c).unwrap_or_default()).into_owned();
+				self.errs.push(format!("instruction assembly failed <- no such global constant {name:?}"));
+			}
+		}
+		else {self.bad = Some(format!("unexpected result {}", r.res));}
+	}
+}
+
+/// run the staged prediction for a batch of programs (three `ask_many` rounds at most)
+pub fn predict_all(cx: &mut Cx, progs: &[Program], dirs: &DirectiveList) -> Vec<Predict>
+{
+	let reqs: Vec<String> = progs.iter().map(|p| stage1_request(p, dirs)).collect();
+	let replies = cx.model.ask_many(&reqs);
+	let mut preds: Vec<Predict> = progs.iter().zip(replies.iter()).map(|(p, r)| Predict::stage1(r, p.addr)).collect();
+	for stage in [2u8, 3u8]
+	{
+		let idx: Vec<usize> = (0..preds.len()).filter(|&i| preds[i].pending.is_some() && preds[i].stage == stage).collect();
+		if idx.is_empty() {break;}
+		let reqs: Vec<String> = idx.iter().map(|&i|
+		{
+			let p = &progs[i];
+			later_request(p, preds[i].pending.as_ref().unwrap(), if stage == 2 {&p.env2} else {&p.env3}, dirs)
+		}).collect();
+		let replies = cx.model.ask_many(&reqs);
+		for (&i, r) in idx.iter().zip(replies.iter()) {preds[i].later(r, progs[i].addr);}
+	}
+	preds
 }
